@@ -1,0 +1,31 @@
+//go:build verif
+
+package unit
+
+// Contracts for package unit, checked by /verif/govc.  Comment-only file.
+//
+// unit.Func{N} adapts a procedure to a function returning fp.Unit.
+
+//@ import "github.com/csgura/fp"
+//
+// ---- Func{N}(f)(a1, …, aN) = (f(a1, …, aN); Unit{}) --------------------------------------
+//
+//@ lemma func0Def(f func())
+//@   prop C14
+//@   ensures EqT(Func0(f)(fp.Unit{}), func() fp.Unit { f(); return fp.Unit{} }())
+//
+//@ schema N=1..9
+//@ lemma func{N}Def[<<i=1..N|, |A$i>> any](f func(<<i=1..N|, |A$i>>), <<i=1..N|, |a$i A$i>>)
+//@   prop C14
+//@   ensures EqT(Func{N}(f)(<<i=1..N|, |a$i>>), func() fp.Unit { f(<<i=1..N|, |a$i>>); return fp.Unit{} }())
+//@ schema end
+//
+//@ func Func0(f) result
+//@   prop C14
+//@   ensures NoCalls()
+//
+//@ schema N=1..9
+//@ func Func{N}(f) result
+//@   prop C14
+//@   ensures NoCalls()
+//@ schema end
